@@ -59,4 +59,5 @@ H1 harmless: rename the local `success` -> `termOK`                exit 0.  (A f
                                                                    timeouts, exited 1: one case whose leader exits at 200 ms was reported as a
                                                                    timeout on all four attempts - bash needed > 700 ms to start.  Timeouts are
                                                                    now 2-3 s against scripted exits of at most 200 ms; re-run: exit 0.)
+After the skeleton-digest facts were added (extractor-only re-check on a scratch copy): H1 still regenerates identical facts.
 """
